@@ -246,8 +246,24 @@ def mk_own():
             self.t = vsc.rand_bit_t(2)
 
     @vsc.randobj
+    class Frozen(object):
+        """sits below a NON-random attribute: nothing in it may change, its random-size list included"""
+        def __init__(self):
+            self.q = vsc.rand_bit_t(3)
+            self.rl = vsc.randsz_list_t(vsc.bit_t(3))
+            for v in (1, 2, 3):
+                self.rl.append(v)
+
+        @vsc.constraint
+        def cq(self):
+            self.rl.size < 6
+            self.q < 2
+
+    @vsc.randobj
     class TopOwn(object):
         def __init__(self, sizes):
+            self.frozen = vsc.attr(Frozen())
+            self.frozen.q = 5
             self.one = vsc.rand_attr(Wrap(sizes[0]))
             self.l = vsc.rand_list_t(Wrap(1))
             for n in sizes[1:]:
@@ -277,11 +293,15 @@ def run_indexed(job):
             d = {"one": [int(v) for v in o.one.cell.vals], "direct[0]": [int(v) for v in o.direct[0].vals]}
             for k, w in enumerate(o.l):
                 d["l[%d]" % k] = [int(v) for v in w.cell.vals]
-            return out[0], d
+            fz = (int(o.frozen.q), [int(v) for v in o.frozen.rl], len(o.frozen.rl), int(o.frozen.rl.size))
+            return out[0], d, fz
         for x in explore(run, bound=1, cap=4000):
             cnt["executions"] += 1
             cnt["transitions"] += len(x.trace) + 1
-            res_, d = x.obs
+            res_, d, fz = x.obs
+            if fz != (5, [1, 2, 3], 3, 3):
+                bad("nonrandom_subobject_changed", "sizes %r: the non-random sub-object 'frozen' (q=5, random-size list [1,2,3]) reads "
+                    "q=%r list=%r len=%r size=%r after the call" % (sizes, fz[0], fz[1], fz[2], fz[3]), list(fz), [5, [1, 2, 3], 3, 3], x.choices)
             if res_ != "ok":
                 bad("indexed_call_failed", "own-block foreach, sizes %r: call ended with %r" % (sizes, res_), res_, "returns", x.choices)
                 continue
